@@ -788,6 +788,18 @@ func (e *Engine) checkReturn(ex Exit, fr *Frame, fn *ssa.Function, c *Contract, 
 				ok = true // values are copies
 			}
 			e.addObligation(st, fr, "fresh", exprString(x), mkBool(ok), "fresh "+exprString(x)+": allocated by this call (or nil)")
+			// deep freshness: a fresh object of a pointer-holding struct type (a key object) owns its internals --
+			// every pointer / slice stored in it was allocated by this call too (or is nil), unless the contract
+			// says `shares x.f` (ownership of that field is handed over by the caller)
+			if pv, isPtr := env.eval(x).(*PtrVal); isPtr && ok && !pv.null && pv.reg != nil {
+				shared := map[string]bool{}
+				for _, sc := range c.Shares {
+					for _, sx := range sc.Exprs {
+						shared[exprString(sx)] = true
+					}
+				}
+				e.deepFresh(st, fr, env, x, pv.typ, shared, 0)
+			}
 		}
 	}
 	for i, en := range c.Ensures {
@@ -1252,4 +1264,73 @@ func (e *Engine) consequentObligation(st2 *State, fr *Frame, env2 *SpecEnv, a *T
 		return
 	}
 	e.addObligation(st2, fr, "ensures", strconv.Itoa(i), g, en.Text)
+}
+
+
+// deepFresh emits the freshness obligations for the pointer / slice fields of the struct x points to.
+func (e *Engine) deepFresh(st *State, fr *Frame, env *SpecEnv, x ast.Expr, t types.Type, shared map[string]bool, depth int) {
+	if depth > 3 {
+		return
+	}
+	pt, ok := underlying(t).(*types.Pointer)
+	if !ok {
+		return
+	}
+	n := namedOf(pt)
+	if n == nil || n.Obj().Pkg() == nil || !strings.HasPrefix(n.Obj().Pkg().Path(), modPath) {
+		return
+	}
+	stt, ok := underlying(pt.Elem()).(*types.Struct)
+	if !ok {
+		return
+	}
+	for i := 0; i < stt.NumFields(); i++ {
+		f := stt.Field(i)
+		switch underlying(f.Type()).(type) {
+		case *types.Pointer, *types.Slice:
+		default:
+			continue
+		}
+		fx := &ast.SelectorExpr{X: x, Sel: ast.NewIdent(f.Name())}
+		name := exprString(fx)
+		if shared[name] {
+			continue
+		}
+		ok, isNil := false, false
+		var sub *PtrVal
+		func() {
+			defer func() {
+				if r := recover(); r != nil {
+					if _, isFail := r.(engineError); !isFail {
+						panic(r)
+					}
+					if os.Getenv("VCGO_DEBUG_FRESH") != "" {
+						fmt.Fprintf(os.Stderr, "deepFresh %s: %v\n", name, r)
+					}
+					ok = false
+				}
+			}()
+			fv := env.eval(fx)
+			if rv, isRef := fv.(*RefVal); isRef {
+				fv = env.loadRef(rv)
+			}
+			switch p := fv.(type) {
+			case *PtrVal:
+				isNil = p.null
+				ok = p.null || (p.reg != nil && p.reg.fresh && env.freshSince(p.reg))
+				sub = p
+			case *SliceVal:
+				isNil = p.reg == nil
+				ok = p.reg == nil || (p.reg.fresh && env.freshSince(p.reg))
+			default:
+				if os.Getenv("VCGO_DEBUG_FRESH") != "" {
+					fmt.Fprintf(os.Stderr, "deepFresh %s: value %T\n", name, p)
+				}
+			}
+		}()
+		e.addObligation(st, fr, "fresh", name, mkBool(ok), "fresh "+name+": the internals of a fresh "+n.Obj().Name()+" are allocated by this call (or nil), so no caller-held buffer or object is shared with it")
+		if ok && !isNil && sub != nil {
+			e.deepFresh(st, fr, env, fx, f.Type(), shared, depth+1)
+		}
+	}
 }
